@@ -2,7 +2,7 @@
 import importlib
 import traceback
 
-GENERATORS = ['gen_fixups', 'gen_offset', 'gen_options', 'gen_modsites', 'gen_traverse', 'gen_prec', 'gen_raweffects']
+GENERATORS = ['gen_fixups', 'gen_offset', 'gen_options', 'gen_modsites', 'gen_traverse', 'gen_prec', 'gen_raweffects', 'gen_delimit']
 
 
 def generate_all() -> dict:
